@@ -52,4 +52,8 @@ CHECKS = {
         text='For every signature of the <=3-named universe in three decorations (defaults, annotations, return annotation), eager and postponed, support.s / f / func_from_sig reproduce the generator\'s spec under the native spelling and the 7 modifiers-based read_sig option combinations (no positional-only parameters), f returns its arguments keyed by name, bind_callsig/sort_callsigs agree with really calling the function on 192 shapes, and make_up_callsigs contains every prefix x keyword subset; plus 24k Hypothesis signatures with <=5 named parameters.',
         design_ref='DESIGN.md 2/C20', technique='bounded-exhaustive enumeration + Hypothesis; round-trip against the generator spec and differential against real calls / CPython-binding-with-values model',
         note='Trusted: vlib/cpbind.py Binder.bind. Expected parameter lists come from the generator spec, not from parsing the text.'),
+    'C14': dict(
+        text='For every signature (and parameter) of the <=3-named universe in 4 decorations (eager/postponed), 60k algebra results and generated discovery results: str/bind/bind_partial agree with the plain inspect counterpart on every shape; replace() keeps type/provenance/upgraded annotations unless overridden; ==/!= against 20 partner kinds return bools, are reflexive, symmetric (also against plain counterparts, which compare equal), negation-consistent and hash-consistent; hashable whenever the plain counterpart is (9M evaluations in thorough).',
+        design_ref='DESIGN.md 2/C14', technique='bounded-exhaustive enumeration + Hypothesis; differential against plain inspect.Signature/Parameter objects and algebraic laws of equality/hash over a partner menagerie',
+        note='Partners whose own __eq__ misbehaves are out of scope; the indifferent partner returns NotImplemented.'),
 }
